@@ -5,5 +5,5 @@ Require Import LruV.A.ModelA LruV.A.MonitorsA LruV.B.RiCheck.
 Extraction Language OCaml.
 
 Extraction "../ocaml/model.ml" stepA new_cache capacity len fullcap b2c do_clone do_drop do_into_iter pinned fixed
-  c01_mon c02_mon c04_nodup_mon c06_mon c20_mon ri_check
+  c01_mon c02_mon c04_nodup_mon c06_mon c13_mon c20_mon ri_check t_alloc
   N.add N.mul N.div_eucl N.of_nat N.eqb N.testbit.
